@@ -60,9 +60,11 @@ def witnesses(tier, seed):
                     if t == 'f32' and quick and (n > 4 or nc):
                         continue
                     W.append(mk(t, n, strat, nc))
-            for n in ([8, 9, 12, 16, 17, 40] if quick else [9, 10, 12, 16, 17, 32, 33, 40, 65, 80]):
+            for n in ([8, 9, 12, 16, 17, 40] if quick else [8, 9, 10, 12, 16, 17, 32, 33, 40, 65]):
                 if t == 'f32' and quick and n != 9:
                     continue
+                if strat == 'SimpleInv' and n > 40:
+                    continue      # the explicit inverse of a 65x65 bidiagonal product exceeds the interpreter's memory cap (measured)
                 W.append(mk(t, n, strat, 0, band=1))
                 W.append(mk(t, n, strat, 0, band='arrow'))
                 if strat != 'SimpleInv':   # the inverse-based strategy forms the full inverse, whose entries grow too fast on the denser patterns
@@ -77,7 +79,7 @@ def witnesses(tier, seed):
     # pivoted strategies end to end (symbolic pivot search, every case decided), vector and multi-column right-hand sides
     for t in ('f64', 'f32'):
         for strat in ('SimpleInvPiv', 'SimpleLUPiv', 'BlockLUPiv'):
-            for n in ([1, 2, 3] if quick else [1, 2, 3, 4]):
+            for n in [1, 2, 3]:   # n = 4 exceeds the case-split budget (measured), see C10
                 for nc in (0, 2):
                     if t == 'f32' and (n > 2 or nc):
                         continue
